@@ -164,6 +164,11 @@ pub fn std_resources() -> Vec<Resource> {
     ]
 }
 
+/// The two entries of `std_resources` that the store must reject (their second alias is taken).
+pub fn deliberately_rejected(r: &Resource) -> bool {
+    r.name.starts_with("bad") && r.aliases.iter().any(|a| a == "a-alias")
+}
+
 pub fn data_url(mime: &str, content: &str) -> String {
     format!("data:{};base64,{}", mime, b64(content))
 }
